@@ -551,7 +551,7 @@ func CheckC04(c *core.Ctx) int {
 			"states": g.Distinct, "transitions": g.States, "traces_validated_against_impl": vo.traces, "samples": samples,
 			"evaluations": len(lines), "distinct_nontrivial": len(nontriv), "exhaustive": true,
 			"exhaustive_domain": fmt.Sprintf("all cases of the stated alphabets with at most %d deviations (class random is sampled on top of it)", emitDist),
-			"rule":              fmt.Sprintf("TLC enumerates every message record (2 types x topic/type/version/instance ok x 9 set classes x 5 sender classes x 4 extras x entry sequences of length 0..%d over 3 identities and 7 share / 5 key kinds) x every receiver state (2 layouts x 4 stored-key classes x 2 stored-share classes) with at most %d simultaneous deviations from a canonical valid message and checks the property layer on the outcome of the code-shaped layer; every case with at most %d deviations is printed, made concrete with real BLS objects and real envelope bytes and run through the real combined topic validator and, on accept, P2PMessaging.Handle over the Postgres fake; plus %d seeded arbitrary protobufs (class random). evaluations = cases executed; distinct_nontrivial = distinct cases that reached the handler's own validator; every line is validated by GossipValidateTrace (pass A monitors, pass B conformance)", MaxPerMsg+1, maxDist, emitDist, nRandom),
+			"rule":              fmt.Sprintf("TLC enumerates every message record (2 types x topic/type/version/instance ok x 9 set classes x 5 sender classes x 4 extras x entry sequences of length 0..%d over 3 identities and 8 share / 6 key kinds (incl. swap: a genuine token of another identity of the same message)) x every receiver state (2 layouts x 4 stored-key classes x 2 stored-share classes) with at most %d simultaneous deviations from a canonical valid message and checks the property layer on the outcome of the code-shaped layer; every case with at most %d deviations is printed, made concrete with real BLS objects and real envelope bytes and run through the real combined topic validator and, on accept, P2PMessaging.Handle over the Postgres fake; plus %d seeded arbitrary protobufs (class random). evaluations = cases executed; distinct_nontrivial = distinct cases that reached the handler's own validator; every line is validated by GossipValidateTrace (pass A monitors, pass B conformance)", MaxPerMsg+1, maxDist, emitDist, nRandom),
 			"tlc_wall_s":        g.Wall, "replay_s": replayS, "validate_s": vo.wall, "cases_printed_by_tlc": len(g.Cases), "random_cases": nRandom,
 			"max_deviations_checked": maxDist, "max_deviations_replayed": emitDist, "outcome_histogram": hist,
 			"trace_lines_validated": vo.lines, "drift_lines": len(vo.drift), "spec_level_counterexamples": specLeads, "known_finding_hits": knownHits,
